@@ -28,7 +28,7 @@ func verifPriceTable() *commission.Price {
 func verifPopulateGenesis(st *State) types.Hash {
 	A, B, C := verifA(1), verifA(2), verifA(3)
 	P, Q := verifK(1), verifK(2)
-	st.App.SetCoinsCount(2)
+	st.App.SetCoinsCount(4)
 	st.App.SetTotalSlashed(verifAmount("slashed", 3))
 	st.App.SetMaxGas(7000)
 	st.Commission.SetNewCommissions(verifPriceTable().Encode())
@@ -93,6 +93,11 @@ func verifPopulateGenesis(st *State) types.Hash {
 	vol1.Add(vol1, verifE18(50))
 	st.Coins.Create(1, types.StrToCoinSymbol("AAA"), "coin a", vol1, 50, verifAmount("res1", 20000), new(big.Int).Add(vol1, verifE18(1000000)), &owner)
 	st.Coins.CreateToken(2, types.StrToCoinSymbol("TOK"), "token", true, true, vol2, new(big.Int).Add(vol2, verifE18(1000000)), &owner)
+	// tokens whose mintable and burnable flags differ (seed C11-k: import copied one flag into the other)
+	st.Accounts.SetBalance(B, 3, verifE18(30))
+	st.Coins.CreateToken(3, types.StrToCoinSymbol("BURNME"), "burnable only", false, true, verifE18(30), verifE18(1000), &owner)
+	st.Accounts.SetBalance(C, 4, verifE18(40))
+	st.Coins.CreateToken(4, types.StrToCoinSymbol("MINTME"), "mintable only", true, false, verifE18(40), verifE18(1000), nil)
 	return h
 }
 
